@@ -528,3 +528,39 @@ def check_definite_assignment(prog: Program, res: Result, rule: str, *, scope: s
             res.fail(rule, file=fi.file, line=getattr(x, "lineno", fi.node.lineno), qualname=fi.qualname, construct=f"{fi.qualname}: `{x.id}` may be unbound", message=f"{fi.qualname} reads the local `{x.id}` on a path that never assigned it ({why}): UnboundLocalError, which is not a LiquidError, escapes", what=f"{fi.qualname}: every local is bound before it is read")
     res.ok(rule, "liquid2/**" if scope == "all" else "liquid2/messages.py + message()/messages()", f"{n_fn} functions: every read of a local is reached only through a binding of it", "forward must-analysis over the statement CFG (sa/defassign.py); positive example matched once")
     res.floor(rule, "functions analysed for definite assignment", n_fn, 900 if scope == "all" else 10)
+
+
+def check_content_right_trim(prog: Program, res: Result, rule: str) -> None:
+    """Literal text takes its right trim from the left marker of whatever markup follows it - for every kind of markup token (C18.R3 = C01.R10).
+
+    The token classes that carry markers are read off liquid2/token.py (a `wc` field). Content.parse may tell them apart with
+    isinstance(peeked, (…)) or with the type guards of token.py (is_tag_token, … - each declared `TypeGuard[<class>]`); either way
+    every marker-carrying class must be covered, and the branch must assign the marker: `right_trim = peeked.wc[0]`."""
+    tokmod = prog.mod("liquid2/token.py")
+    markup_classes = {c.name for c in tokmod.classes.values() if any(isinstance(s, ast.AnnAssign) and isinstance(s.target, ast.Name) and s.target.id == "wc" for s in c.node.body)}
+    res.floor(rule, "token classes with wc", len(markup_classes), 5)
+    guards: dict[str, str] = {}
+    for name, f in tokmod.functions.items():
+        r = f.node.returns
+        if r is not None and isinstance(r, ast.Subscript) and (dotted(r.value) or "").endswith("TypeGuard"):
+            guards[name] = dotted(r.slice) or ""
+    cp = prog.cls("liquid2.builtin.content.Content").methods.get("parse")
+    if cp is None:
+        raise AnalysisError("Content.parse vanished")
+    covered: set[str] = set()
+    for n in ast.walk(cp.node):
+        if isinstance(n, ast.Call) and isinstance(n.func, ast.Name) and n.func.id == "isinstance" and len(n.args) == 2 and norm(n.args[0]) == "peeked":
+            covered |= {dotted(x) or "" for x in (n.args[1].elts if isinstance(n.args[1], ast.Tuple) else [n.args[1]])}
+        if isinstance(n, ast.Call) and isinstance(n.func, ast.Name) and n.func.id in guards and len(n.args) == 1 and norm(n.args[0]) == "peeked":
+            covered.add(guards[n.func.id])
+
+    def base_covered(name: str) -> bool:
+        c = tokmod.classes.get(name)
+        return c is not None and any(k.name in covered for k in prog.mro(c))
+
+    missing = sorted(m for m in markup_classes if not base_covered(m))
+    what = "Content.parse takes right_trim = peeked.wc[0] for every markup token class"
+    if not missing and "right_trim = peeked.wc[0]" in norm(cp.node, 3000) and "stream.peek()" in norm(cp.node, 3000):
+        res.ok(rule, f"{cp.file}:{cp.node.lineno} Content.parse", what, f"covers {sorted(covered)}")
+    else:
+        res.fail(rule, file=cp.file, line=cp.node.lineno, qualname="Content.parse", construct=f"uncovered markup classes {missing}", message=f"text followed by {missing or 'markup'} does not take that markup's left marker as its right trim", what=what)
